@@ -164,10 +164,14 @@ type ascii85Writer struct {
 	buf []byte
 	v   uint32
 	k   int
+	err error
 }
 
 // Write implements the [io.Writer] interface.
 func (w *ascii85Writer) Write(p []byte) (n int, err error) {
+	if w.err != nil {
+		return n, w.err // n == 0: nothing is accepted after a failed write
+	}
 	for n, b := range p {
 		w.v = w.v<<8 | uint32(b)
 		w.k++
@@ -176,6 +180,7 @@ func (w *ascii85Writer) Write(p []byte) (n int, err error) {
 				w.buf = append(w.buf, '\n')
 				err = w.flush()
 				if err != nil {
+					w.err = err
 					return n, err
 				}
 			}
@@ -207,6 +212,9 @@ func (w *ascii85Writer) Write(p []byte) (n int, err error) {
 // It also closes the underlying writer.
 // This implements the [io.Closer] interface.
 func (w *ascii85Writer) Close() error {
+	if w.err != nil {
+		return w.err
+	}
 	if w.k != 0 {
 		v := w.v << ((4 - w.k) * 8)
 		var c [5]byte
